@@ -33,10 +33,12 @@ func (pad iso9797M2Padding) Unpad(src []byte) ([]byte, error) {
 	}
 	tail := src[srcLen-pad.BlockSize():]
 	allZero := true
+	found := false
 	padStart := 0
 	for i := pad.BlockSize() - 1; i >= 0; i-- {
 		if tail[i] == 0x80 {
 			padStart = i
+			found = true
 			break
 		}
 		if tail[i] != 0 {
@@ -44,7 +46,7 @@ func (pad iso9797M2Padding) Unpad(src []byte) ([]byte, error) {
 			break
 		}
 	}
-	if !allZero {
+	if !allZero || !found {
 		return nil, errors.New("padding: inconsistent padding bytes")
 	}
 	return src[:srcLen-pad.BlockSize()+padStart], nil
